@@ -376,6 +376,13 @@ func runC03(c C03Case, o *run.Obs) error {
 			sb := s3persist.NewPersist(client, ep, "bucket", pr[1])
 			stores = []mast.Persist{&sa, &sb}
 			what = fmt.Sprintf("two S3 stores on one bucket with object prefixes %q and %q", pr[0], pr[1])
+			if (len(c.Base)/8)%3 == 0 {
+				// or two S3 services (different endpoints, each with a client of its own) that use the same bucket name and prefix
+				sa = s3persist.NewPersist(env.NewMiniS3(), "https://s3.eu-west-1.example", "bucket", pr[0])
+				sb = s3persist.NewPersist(env.NewMiniS3(), "https://s3.us-east-2.example", "bucket", pr[0])
+				stores = []mast.Persist{&sa, &sb}
+				what = fmt.Sprintf("two S3 stores on different endpoints with the same bucket and prefix %q", pr[0])
+			}
 		}
 		for _, st := range stores {
 			var m *mast.Mast
